@@ -1,6 +1,7 @@
 """Fresh-process half of the C04 round trip: deserializes payloads produced by another
 interpreter (none of the original nodes exists here) and checks every position against the
 pickled snapshot.  Prints a JSON list of failure messages (null = position-wise identical)."""
+import gc
 import json
 import pickle
 import sys
@@ -15,7 +16,13 @@ from pyoak.origin import SOURCE_OPTIMIZED_SERIALIZATION_KEY, Source
 items = pickle.load(open(sys.argv[1], "rb"))
 out = []
 idx_ready = False
+b = None
 for fmt, cname, payload, snap in items:
+    # the tree of the previous item must be gone before the next payload is read: a node of it that holds an id of the
+    # next payload ("another live node has taken over the id") would be returned instead of a new node
+    b = None
+    gc.collect()
+    NODE_REGISTRY.clear()
     try:
         if fmt == "sources":
             out.append(None)
